@@ -319,6 +319,8 @@ def run(db, tier):
     rep.floor("functions in the encode_args closure/helper scope", len(scope), 5)
 
     rule_jump_adjacent(db, rep)
+    from props import c09 as _c09
+    _c09.rule_param_pair(db, rep)
     # ---- R-VALIDATE: nothing may follow a string that is read to the end of the blob
     from rules import symeval as SY
     from facts import hir_walk as _hw
